@@ -132,6 +132,15 @@ def build(tier, seed, known):
         src += fn_src("o_" + name, "text: str, kind: int", pres, ["return contained(%r, %r, text, kind, %r, %r)" % (prog, flags, out, err)])
         plan.obs.append(Ob("o_" + name, fam, "m", "o_" + name, 240, "confirmed", "execute_vyxal(%r, flags=%r, online) with symbolic input text and a nondeterministic literal_eval: no eval/exec/compile of anything but the transpiler's output, no print/stdout, no escaping exception%s%s" % (prog, flags + "e", ", output in the record" if out else "", ", error in the error record" if err else ""),
                            "input text any Unicode incl. newlines, len<=%d; literal_eval outcome in {raises, 7, 'abc', [1,2]}" % ml))
+    try:
+        from props.c01 import prepare
+        gen = prepare(tier, seed)["keep"][27:27 + (12 if tier == "quick" else 150)]
+    except Exception:  # noqa
+        gen = []
+    for gi, P in enumerate(gen):
+        name = "og%03d" % gi
+        src += fn_src(name, "text: str, kind: int", ["len(text) <= 2", "0 <= kind <= 3"], ["return contained(%r, '', text, kind, False, False)" % P])
+        plan.obs.append(Ob(name, "online:generated", "m", name, 90, "confirmed", "generated program %s in online mode: no eval/exec/compile of text, no host output, no escaping exception" % P, "input text len<=2 (any Unicode), literal_eval outcome in {raises, 7, 'abc', [1,2]}"))
     src += fn_src("twin_online", "text: str, kind: int", ["len(text) <= 2", "0 <= kind <= 3"], ["return contained('?,', '', text, kind, True, True)"])
     plan.obs.append(Ob("twin_online", "online:print", "m", "twin_online", 120, "refuted", "reachability twin (demands an error that does not happen)"))
     plan.modules["m"] = src
